@@ -384,6 +384,28 @@ def r4_symbolic_deriv(rule, root=None):
         for v in (unary if enum == "UnaryOpcode" else binary):
             if v not in seen:
                 rule.bad("%s|%s|missing" % (enum, v), "deriv has no arm for %s::%s" % (enum, v), A.where(fn, ms[0]))
+    # memoisation: the derivative of node n is cached under n and looked up under n
+    ms_a = [m for m in A.find(fn["body"], "Match") if any((A.pat_variant(a["pat"])[0] or [None])[0] == "Action" for a in m["arms"])]
+    n_ins = 0
+    memo_bad = False
+    for m in ms_a[:1]:
+        for a in m["arms"]:
+            segs, subs = A.pat_variant(a["pat"])
+            if not segs or segs[0] != "Action" or not subs:
+                continue
+            node_name = A.binding_name(subs[0])
+            for c in A.find(a["body"], "MethodCall"):
+                if A.ident(A.strip(c["recv"])) != "seen" or c["method"] not in ("insert", "get", "contains_key", "entry"):
+                    continue
+                k = A.ident(A.strip(c["args"][0])) if c["args"] else None
+                n_ins += 1
+                if k != node_name:
+                    memo_bad = True
+                    rule.bad("memo|%s" % segs[-1], "deriv caches / looks up a derivative under `%s` while processing node `%s`: a shared sub-expression would get another node's derivative" % (k, node_name), A.where(fn, c))
+    if not ms_a or n_ins < 3:
+        rule.bad("memo|shape", "the `seen` cache of Context::deriv (insert / get keyed by the node being differentiated) was not found", A.where(fn))
+    elif not memo_bad:
+        rule.ok("deriv's cache is keyed by the node being differentiated (%d uses)" % n_ins)
     t = A.ftxt(fn["body"])
     if "letz=if(v==u){self.constant(1.0)}else{zero};" in t and "Op::Const(_c)=>{seen.insert(n,zero);stack.push(zero);}" in t:
         rule.ok("deriv of the variable itself is 1, of other inputs and constants 0")
